@@ -1032,8 +1032,9 @@ def _defined_names(current, include_setitem):
     elif current.type in ('atom', 'star_expr'):
         names += _defined_names(current.children[1], include_setitem)
     elif current.type in ('power', 'atom_expr'):
-        if current.children[-2] != '**':  # Just if there's no operation
-            trailer = current.children[-1]
+        trailer = current.children[-1]
+        # `await x` is an atom_expr as well, but doesn't end with a trailer.
+        if current.children[-2] != '**' and trailer.type == 'trailer':  # Just if there's no operation
             if trailer.children[0] == '.':
                 names.append(trailer.children[1])
             elif trailer.children[0] == '[' and include_setitem:
